@@ -54,6 +54,11 @@ func (s *Slice) Apply(inputs []tensor.Tensor) ([]tensor.Tensor, error) {
 		}
 	}
 
+	starts, ends, err = s.normalizeIndices(starts, ends, steps, axes, data.Shape())
+	if err != nil {
+		return nil, err
+	}
+
 	slices := s.constructSlices(starts, ends, steps, axes, len(data.Shape()))
 
 	out, err := data.Slice(slices...)
@@ -94,6 +99,69 @@ func (s *Slice) GetInputTypeConstraints() [][]tensor.Dtype {
 // String implements the stringer interface, and can be used to format errors or messages.
 func (s *Slice) String() string {
 	return "slice operator"
+}
+
+// normalizeIndices validates the starts, ends, steps and axes of the slice and rewrites the starts
+// and ends as ONNX prescribes: negative values count from the end of the dimension, and values
+// outside the dimension are clamped to it. Requests that cannot be represented (a step that is
+// not positive, or a slice without elements) are refused.
+func (s *Slice) normalizeIndices(starts, ends, steps, axes []int, shape tensor.Shape) ([]int, []int, error) {
+	nDims := len(shape)
+
+	if len(ends) != len(starts) || len(axes) != len(starts) || len(steps) != len(starts) {
+		return nil, nil, ops.ErrInvalidInput("starts, ends, axes and steps must have the same length", s)
+	}
+
+	if !ops.AllInRange(axes, -nDims, nDims-1) {
+		return nil, nil, ops.ErrNotAllAxesInRange(nDims, nDims)
+	}
+
+	newStarts := make([]int, len(starts))
+	newEnds := make([]int, len(ends))
+	seen := make(map[int]bool, len(axes))
+
+	for i, ax := range axes {
+		if ax < 0 {
+			ax += nDims
+		}
+
+		if seen[ax] {
+			return nil, nil, ops.ErrInvalidInput("axes cannot have duplicate entries", s)
+		}
+
+		seen[ax] = true
+
+		if steps[i] <= 0 {
+			return nil, nil, ops.ErrInvalidInput("only positive steps are supported", s)
+		}
+
+		newStarts[i] = clampSliceIndex(starts[i], shape[ax])
+		newEnds[i] = clampSliceIndex(ends[i], shape[ax])
+
+		if newStarts[i] >= newEnds[i] {
+			return nil, nil, ops.ErrInvalidInput("slices without elements are not supported", s)
+		}
+	}
+
+	return newStarts, newEnds, nil
+}
+
+// clampSliceIndex offsets a negative index by the size of the dimension and clamps the result
+// to the range [0, dimSize].
+func clampSliceIndex(index, dimSize int) int {
+	if index < 0 {
+		index += dimSize
+	}
+
+	if index < 0 {
+		return 0
+	}
+
+	if index > dimSize {
+		return dimSize
+	}
+
+	return index
 }
 
 // constructSlice constructs a list with tensor.Slice objects. The list is initializes with nils.
